@@ -170,7 +170,7 @@ pub struct Searcher<'a> {
     #[cfg(unix)]
     visited_inodes: HashSet<u64>,
     lscolors: LsColors,
-    dir_queue: Box<VecDeque<PathBuf>>,
+    dir_queue: Box<VecDeque<(PathBuf, u32)>>,
     current_follow_symlinks: bool,
 
     fms: FileMetadataState,
@@ -389,7 +389,7 @@ impl<'a> Searcher<'a> {
                 root_dir,
                 min_depth,
                 max_depth,
-                0,
+                1,
                 search_archives,
                 apply_gitignore,
                 #[cfg(feature = "git")]
@@ -626,7 +626,7 @@ impl<'a> Searcher<'a> {
         dir: &Path,
         min_depth: u32,
         max_depth: u32,
-        root_depth: u32,
+        depth: u32,
         search_archives: bool,
         apply_gitignore: bool,
         #[cfg(feature = "git")]
@@ -660,15 +660,8 @@ impl<'a> Searcher<'a> {
             return Ok(());
         }
 
-        let canonical_depth = crate::util::calc_depth(&canonical_path);
-
-        let base_depth = match root_depth {
-            0 => canonical_depth,
-            _ => root_depth,
-        };
-
-        // (a directory reached through a link may lie above the root)
-        let depth = canonical_depth.saturating_sub(base_depth) + 1;
+        // `depth` is the nesting level of this directory's entries below the root, counted along the way
+        // the search came (1 = directly inside the root) - also behind a link, wherever its target really lies
 
         // Read the directory and process each entry
         match fs::read_dir(dir) {
@@ -808,7 +801,7 @@ impl<'a> Searcher<'a> {
                                                     &path,
                                                     min_depth,
                                                     max_depth,
-                                                    base_depth,
+                                                    depth + 1,
                                                     search_archives,
                                                     apply_gitignore,
                                                     #[cfg(feature = "git")]
@@ -827,7 +820,7 @@ impl<'a> Searcher<'a> {
                                                     );
                                                 }
                                             } else {
-                                                self.dir_queue.push_back(path);
+                                                self.dir_queue.push_back((path, depth + 1));
 
                                                 #[cfg(fselect_verif)]
                                                 {
@@ -874,7 +867,7 @@ impl<'a> Searcher<'a> {
 
         if traversal_mode == Bfs && process_queue {
             while !self.dir_queue.is_empty() {
-                let path = self.dir_queue.pop_front().unwrap();
+                let (path, depth) = self.dir_queue.pop_front().unwrap();
                 #[cfg(fselect_verif)]
                 crate::verif::emit("dequeue", &[("ino", crate::verif::ino_followed(&path))]);
                 #[cfg(feature = "git")]
@@ -893,7 +886,7 @@ impl<'a> Searcher<'a> {
                     &path,
                     min_depth,
                     max_depth,
-                    base_depth,
+                    depth,
                     search_archives,
                     apply_gitignore,
                     #[cfg(feature = "git")]
